@@ -5,9 +5,13 @@ use arrow_arith::arithmetic::{multiply_fixed_point, multiply_fixed_point_checked
 use arrow_array::Decimal128Array;
 
 fn main() {
-    // 0.1 * 0.1 = 0.01, required scale -3 (units of 1000): exact rounded result 0
-    let a = Decimal128Array::from(vec![10i128.pow(37)]).with_precision_and_scale(38, 38).unwrap();
-    let c = multiply_fixed_point_checked(&a, &a, -3);
-    let u = multiply_fixed_point(&a, &a, -3);
-    println!("0.1 * 0.1 at required scale -3: checked = {:?}, unchecked = {:?} (exact: 0)", c.map(|x| x.value(0)), u.map(|x| x.value(0)));
+    // 0.99..9 * 0.99..9 ~ 1, required scale -1 (units of 10): exact rounded result 0.
+    // product scale 76, divisor 10^77 does not fit i256 (wraps to 10^77 - 2^256 < 0)
+    let a = Decimal128Array::from(vec![10i128.pow(38) - 1]).with_precision_and_scale(38, 38).unwrap();
+    let c = multiply_fixed_point_checked(&a, &a, -1);
+    let u = multiply_fixed_point(&a, &a, -1);
+    println!("0.99..9 * 0.99..9 at required scale -1: checked = {:?}, unchecked = {:?} (exact: 0)", c.map(|x| x.value(0)), u.map(|x| x.value(0)));
+    // operands at the physical minimum (beyond precision 38), required scale -3: exact 0
+    let m = Decimal128Array::from(vec![i128::MIN]).with_precision_and_scale(38, 38).unwrap();
+    println!("MIN * MIN at required scale -3: checked = {:?} (exact: 0)", multiply_fixed_point_checked(&m, &m, -3).map(|x| x.value(0)));
 }
